@@ -35,6 +35,7 @@ pub fn exec_new(t: &dyn TypeOps, sh: &Shape, ar: &mut Arena, place: Place, d: &D
     let len = sl.len();
     let r = guarded(|| t.new_in_place(sl, d));
     let after = hex(sl);
+    let zdirect = if matches!(r, Some(Ok(()))) { Some(t.probe(sl).res.as_ref().map(|x| x.2).unwrap_or(usize::MAX)) } else { None };
     let mut out = format!("{} {}", res_str(r.clone()), after);
     if matches!(r, Some(Ok(()))) {
         out += &format!(" spec={}", render_init(sh, d).replace(' ', "_"));
@@ -42,6 +43,21 @@ pub fn exec_new(t: &dyn TypeOps, sh: &Shape, ar: &mut Arena, place: Place, d: &D
     }
     if !ar.outside_intact(start, len, FILL) {
         out += " OUTSIDE-WRITTEN";
+    }
+    // `FlatWrap::new_in_place` over the same bytes must behave exactly like `new_in_place` (C15)
+    {
+        let direct = r.clone();
+        let (_, sl2) = ar.place(pre, place, FILL);
+        let rw = guarded(|| t.wrap_new_in_place(sl2, d));
+        let same = match (&direct, &rw) {
+            (Some(Ok(())), Some(Ok(z))) => Some(*z) == zdirect && hex(sl2) == after,
+            (Some(Err(a)), Some(Err(b))) => a == b && hex(sl2) == after,
+            (None, None) => true,
+            _ => false,
+        };
+        if !same {
+            out += " WRAP-DIFF";
+        }
     }
     out
 }
